@@ -301,6 +301,18 @@ impl Run {
 				note_action(&shared, if kind.is_empty() { format!("{} {c} {k}", w[0]) } else { format!("{} {c} {k} {kind}", w[0]) }, "ok");
 				self.write(c, &bytes).await;
 			}
+			"junk" => {
+				// a message above max_request_body_size on a WebSocket connection: refused (-32007, id null:
+				// not an answer to any call, the reader logs nothing) or, while the server drains, discarded —
+				// never a reason to end the connection or to cut the drain short
+				let c = num(1);
+				let Some(tr) = self.conns.get(&c).map(|x| x.tr) else { return };
+				note_action(&shared, format!("junk {c}"), "ok");
+				if tr == Tr::Ws {
+					let payload = vec![b'x'; JUNK_LIMIT as usize + 1000];
+					self.write(c, &ws_frame(1, &payload)).await;
+				}
+			}
 			"wsub" => {
 				let k = num(1);
 				let got = self.env.wait_ev(|e| matches!(e, Ev::SubAccepted { tag } if *tag == k).then_some(()), WAIT).await;
@@ -426,9 +438,9 @@ impl Run {
 	}
 }
 
-const ACTIONS: [&str; 21] = [
+const ACTIONS: [&str; 22] = [
 	"open", "send", "sub", "wsub", "rel", "relall", "yield", "stop", "drop", "gone", "wstart", "wfin", "wresp", "weof", "wres", "end", "hclone", "hdropc",
-	"isstopped", "popen", "sleep",
+	"isstopped", "popen", "sleep", "junk",
 ];
 
 struct Header {
@@ -1086,6 +1098,61 @@ fn gen_ping_drain_case(rng: &mut Rng, n: u64, pre_idle: bool) -> Vec<String> {
 	l
 }
 
+/// An oversized message at every place around the stop (deterministic): before it (the connection keeps
+/// serving, the call sent afterwards is executed and answered), while the server drains (it is discarded; the
+/// calls whose handlers had started are still answered), twice, next to an ordinary call sent after the stop.
+fn junk_cases(n0: u64) -> Vec<Vec<String>> {
+	let mut cases = vec![];
+	let mut n = n0;
+	for asm in [Assembly::Server, Assembly::Tower, Assembly::LowLevel] {
+		for variant in 0..6u32 {
+			let mut l = vec![format!("case {n} stop cap=2 path={} opts=ownrt", asm.name())];
+			n += 1;
+			l.push("st open 1 ws".into());
+			if variant == 5 {
+				l.push("st open 2 http".into());
+				l.push("st send 2 91".into());
+				l.push("st wstart 91".into());
+			}
+			if variant == 0 || variant == 4 {
+				l.push("st junk 1".into());
+			}
+			l.push("st send 1 11".into());
+			l.push("st wstart 11".into());
+			if variant == 4 {
+				l.push("st junk 1".into());
+				l.push("st send 1 12".into());
+				l.push("st wstart 12".into());
+			}
+			l.push("st stop".into());
+			if variant >= 1 {
+				l.push("st junk 1".into());
+			}
+			if variant == 2 {
+				l.push("st yield".into());
+				l.push("st junk 1".into());
+			}
+			if variant == 3 {
+				l.push("st send 1 13".into());
+			}
+			l.push("st yield".into());
+			l.push("st sleep 50".into());
+			l.push("st relall".into());
+			l.push("st wresp 11".into());
+			if variant == 4 {
+				l.push("st wresp 12".into());
+			}
+			if variant == 5 {
+				l.push("st wresp 91".into());
+			}
+			l.push("st wres".into());
+			l.push("st end".into());
+			cases.push(l);
+		}
+	}
+	cases
+}
+
 fn split_cases(lines: Vec<String>) -> Vec<Vec<String>> {
 	let mut cases: Vec<Vec<String>> = vec![];
 	for l in lines {
@@ -1115,6 +1182,7 @@ fn main() {
 		cases = split_cases(read_case_lines(r));
 	} else {
 		cases.extend(split_cases(corpus_lines("C10")));
+		cases.extend(junk_cases(500));
 		let mut rng = Rng::new(a.seed);
 		let total = a.cases.unwrap_or(if thorough { 15000 } else { 1000 });
 		let mut n = 1000u64;
